@@ -312,20 +312,39 @@ static void run_file(Ctx& cx, const std::string& path, const Expect& ex) {
             for (uint64_t k = 0; k < c->flexpath_array.count; k++) if (std::find(used.begin(), used.end(), path_tag(c->flexpath_array[k])) == used.end()) used.push_back(path_tag(c->flexpath_array[k]));
         }
         std::sort(used.begin(), used.end());
+        // the filter set is built in several ways that all denote the same set: 0 = only additions; 1 = every tag in use added,
+        // the others deleted again; >= 2 = as 1 with decoy tags (absent from the file) added in between and deleted again
+        const int nbuild = deep ? 7 : 4;
         for (uint32_t mask = 0; mask < (1u << used.size()); mask++)
-            for (int absent = 0; absent < 2; absent++) {
+            for (int absent = 0; absent < 2; absent++)
+            for (int bv = 0; bv < nbuild; bv++) {
                 std::vector<Tag> keep;
                 for (size_t k = 0; k < used.size(); k++) if (mask >> k & 1) keep.push_back(used[k]);
                 if (absent) keep.push_back(TABSENT);
                 Set<Tag> fs = {};
-                for (Tag tg : keep) fs.add(tg);
-                if (keep.empty()) fs.resize(8);  // an empty but allocated filter set
+                if (bv == 0) {
+                    for (Tag tg : keep) fs.add(tg);
+                } else {
+                    std::vector<Tag> all = used, decoys;
+                    if (absent) all.push_back(TABSENT);
+                    if (bv >= 2) for (int k = 0; k < 2 + bv; k++) decoys.push_back(make_tag(20 + (uint32_t)((bv * 5 + k * (bv + 1)) % 37), (uint32_t)(k % 3)));
+                    size_t di = 0;
+                    for (size_t k = 0; k < all.size(); k++) {
+                        if (di < decoys.size()) fs.add(decoys[di++]);
+                        fs.add(all[k]);
+                    }
+                    while (di < decoys.size()) fs.add(decoys[di++]);
+                    for (size_t k = 0; k < all.size(); k++) if (std::find(keep.begin(), keep.end(), all[k]) == keep.end()) fs.del(all[k]);
+                    for (Tag tg : decoys) if (std::find(all.begin(), all.end(), tg) == all.end()) fs.del(tg);
+                    if (fs.count != keep.size()) viol(cx, "filter", "set-count", {{"built", jint(bv)}}, fmt("filter set built by additions and deletions holds %llu tags, %llu expected", (unsigned long long)fs.count, (unsigned long long)keep.size()), fmt("part=filter mask=%u absent=%d build=%d", mask, absent, bv));
+                }
+                if (keep.empty() && bv == 0) fs.resize(8);  // an empty but allocated filter set
                 ErrorCode fe = ErrorCode::NoError;
                 Library fl = read_gds(path.c_str(), 0, 1e-2, &fs, &fe);
                 cx.what = "filtered load, keep {" + tagset_str(keep) + "}";
                 std::string want = lib_dump_filtered(full, &keep), got = lib_dump_filtered(fl, NULL);
-                if (fe != ec) viol(cx, "filter", "error-code", {{"kept", jint((int64_t)keep.size())}}, fmt("filtered load returned code %d, full load %d", (int)fe, (int)ec), fmt("part=filter mask=%u absent=%d", mask, absent));
-                if (want != got) viol(cx, "filter", "content", {{"kept", jint((int64_t)keep.size())}, {"with_absent_tag", jbool(absent)}}, first_diff(want, got), fmt("part=filter mask=%u absent=%d", mask, absent));
+                if (fe != ec) viol(cx, "filter", "error-code", {{"kept", jint((int64_t)keep.size())}}, fmt("filtered load returned code %d, full load %d", (int)fe, (int)ec), fmt("part=filter mask=%u absent=%d build=%d", mask, absent, bv));
+                if (want != got) viol(cx, "filter", bv ? "content-after-deletions" : "content", {{"kept", jint((int64_t)keep.size())}, {"with_absent_tag", jbool(absent)}, {"set_built", jstr(bv == 0 ? "additions" : bv == 1 ? "additions+deletions" : "additions+decoys+deletions")}}, first_diff(want, got), fmt("part=filter mask=%u absent=%d build=%d", mask, absent, bv));
                 fs.clear();
                 fl.free_all();
                 R->count("cases");
